@@ -296,6 +296,24 @@ def r4(ctx):
     if any(e.kind == 'call' and e.info for e in ev):
       sdn = [e for e in ev if e.kind == 'call' and U(e.node.func) == 'self._Shutdown']
       ctx.ob('C08.R4', oi, 'failed open shuts the transport down and re-raises', len(sdn) == 1 and ex[0] == 'raise', 'failed open: shutdowns %d, exit %s' % (len(sdn), ex[0]), why)
+  # the handshake yields; a fault during it runs _Shutdown (state Closed, fault signal, socket closed, loops killed).  A late
+  # handshake reply must not bring the transport back to Open: the state may be set to Open only after re-checking it
+  for ev, ex in enum_paths(ctx, oi, mr):
+    setopen = [i for i, e in enumerate(ev) if e.kind == 'stmt' and isinstance(e.node, ast.Assign) and U(e.node.targets[0]) == 'self._state' and U(e.node.value) == 'ChannelState.Open']
+    hs = [i for i, e in enumerate(ev) if e.kind == 'call' and U(e.node.func) == 'self._CheckInitialConnection']
+    if not setopen or not hs:
+      continue
+    between = ev[hs[-1] + 1:setopen[0]]
+    chk = [e for e in between if e.kind == 'cond' and U(e.node).replace(' ', '') in ('self.isActive', 'notself.isActive', 'self._state!=ChannelState.Closed', 'self._state==ChannelState.Closed', 'self.is_closed')]
+    okc = False
+    for e in chk:
+      t_ = U(e.node).replace(' ', '')
+      alive = (t_ in ('self.isActive', 'self._state!=ChannelState.Closed') and e.info) or (t_ in ('notself.isActive', 'self._state==ChannelState.Closed', 'self.is_closed') and not e.info)
+      okc = okc or alive
+    ctx.ob('C08.R4', oi, 'state becomes Open only for a transport that is still active after the handshake', okc,
+           '_OpenImpl sets _state = Open unconditionally after _CheckInitialConnection(): when the peer answers the initial ping and hangs up, _Shutdown runs '
+           '(Closed, fault raised, socket and loops gone) and the late ping reply then lets the open complete -- the dead transport reports Open',
+           'state is Open iff the connection is usable; a transport that raised its fault signal must not report Open')
   ia = prog.func(MUX, 'MuxSocketTransportSink.isActive')
   ctx.ob('C08.R4', ia, 'isActive = state is not Closed', U(ia.node.body[-1]).replace(' ', '') == 'returnself._state!=ChannelState.Closed', 'isActive changed', why, nontrivial=False)
 
